@@ -129,6 +129,32 @@ func c09Exec(op string) (string, *Violation) {
 		}
 		return nil
 	}
+	// a scan that ends in an error (the stream cut inside a block) still reports the offset of the block of the
+	// object it returned last: that is where a caller resumes
+	for bi := 1; bi < len(frames); bi++ {
+		start := 0
+		for k := 0; k < bi; k++ {
+			start += len(frames[k].Bytes)
+		}
+		cut := start + len(frames[bi].Bytes)/2
+		if cut <= start || cut >= len(data) {
+			continue
+		}
+		t := mk(data[:cut])
+		var lastC int64 = -1
+		n := 0
+		for t.Scan() {
+			lastC = t.FullyScannedBytes()
+			n++
+		}
+		terr := t.Err()
+		endC := t.FullyScannedBytes()
+		t.Close()
+		// (blocks taken after it that yielded no object under the skip flags may have moved it forward)
+		if terr != nil && n > 0 && endC < lastC {
+			return line, &Violation{Signature: "pbf-offset-lost-after-error", Text: fmt.Sprintf("the stream cut at byte %d (inside block %d): after %d objects the scan ends with %v and FullyScannedBytes() = %d; while the last object was returned it was %d", cut, bi, n, terr, endC, lastC)}
+		}
+	}
 	if v := resume(0, 0); v != nil {
 		return line, v
 	}
